@@ -117,7 +117,7 @@ class RunCtx:
         return seeds.rng_for(self.seed, *stream)
 
     # ---- sub-runs --------------------------------------------------------
-    def subrun(self, fn, payload, *, setup=None, wall=60):
+    def subrun(self, fn, payload, *, setup=None, wall=280):
         """Fork; in the child run ``fn(payload, subctx)``; return a dict:
 
         {'status': 'ok', 'value': ...} | {'status': 'exc', 'exc': {...}} |
